@@ -410,6 +410,45 @@ def run(fb, rep, tier):
     if k10 < 8:
         raise AnalysisBroken('R05.10: only %d subscripts of the result arrays found' % k10)
 
+    # ------------------------------------------------------------------ R05.11
+    # the ids of the basic variables (_solver.basis().baseId(i)) are valid only while the basis matrix is set up; after an in-place modification
+    # of the LP they are rebuilt - in another order - by the next solve with the basis.  Every read of baseId in SoPlexBase is therefore either
+    # preceded on every path by a call that sets the matrix up (solve, coSolve, multBaseWith, multWithBase, factorize on the basis) or guarded by
+    # isMatrixSetup().  (F70: getBasisInd read the stale ids.)
+    rep.rule('R05.11', 'every read of the basis ids is preceded by a solve / multiply with the basis (which sets the matrix up) or guarded by isMatrixSetup()', floor=12)
+    SETUP = ('solve', 'coSolve', 'multBaseWith', 'multWithBase', 'factorize', 'solve4update', 'solveRight', 'solveLeft', 'setupMatrix')
+
+    def sets_up(n):
+        return n.k == 'CXXMemberCallExpr' and n.short in SETUP and n.obj() is not None and 'basis()' in render(n.obj())
+    k11 = 0
+    for f in sorted(fb.funcs.values(), key=lambda g: (g.file, g.line)):
+        if not f.name.startswith(C + '::') or not f.file.endswith('/soplex.hpp') or not f.nodes:
+            continue
+        reads = [n for n in f.nodes if n.k == 'CXXMemberCallExpr' and n.short == 'baseId' and n.obj() is not None and 'basis()' in render(n.obj()) and not f.in_assert(n)]
+        if not reads:
+            continue
+        g = Graph(f)
+        for n in reads:
+            k11 += 1
+            key = '%s|baseId(%s)#%d' % (f.short, render(n.args()[0])[:20] if n.args() else '', k11)
+            wh = '%s:%d' % (f.file, n.l)
+            guarded = any(a.k == 'IfStmt' and 'isMatrixSetup()' in render(a.kid('cond')) and not render(a.kid('cond')).strip('()').startswith('!')
+                          and a.kid('then') is not None and any(x.i == n.i for x in a.kid('then').walk()) for a in f.ancestors(n))
+            if guarded:
+                rep.ok('R05.11', key, wh, 'inside if(isMatrixSetup())')
+                continue
+            try:
+                tb = g.block_of(n)
+                ok, path = g.must_pass(sets_up, to=tb)
+            except Exception as e:
+                rep.unrec('R05.11', key, wh, 'cannot place the read in the CFG (%s)' % e)
+                continue
+            rep.check(ok, 'R05.11', key, wh, 'a solve / multiply with the basis precedes the read on every path',
+                      'the basis ids are read on a path on which nothing has set the basis matrix up: after removeRow / addRow / removeCol / addCol on the loaded LP they are stale, and the '
+                      'next basis query rebuilds them in another order (rows first, then columns)')
+    if k11 < 12:
+        raise AnalysisBroken('R05.11: only %d reads of baseId found in SoPlexBase' % k11)
+
     # ------------------------------------------------------------------ R05.9
     # homogeneity: with a scaled LP the internal row / column vectors live in the scaled space; a sum or difference of such a product
     # and a raw element of a caller-supplied vector is only meaningful when no scaling is being undone (the element must be scaled first)
